@@ -6,10 +6,10 @@
 //!       trailing garbage of 1..9 bytes, unknown footer versions, truncated footers, bytes after the footer, footers that contradict
 //!       the chunk data, wrong hashes - each through readers that deliver everything at once / 1 byte per read / random pieces /
 //!       with Pending in between, and readers that fail mid-stream.
-//!   (B) streams of many highly compressible maximum-size chunks whose unpacked total is just below / at / above the u32 range of
-//!       the footer's unpacked offsets (a few MB on the wire); the four sizes run in parallel threads, beside three threads that give
-//!       the 32767- / 32768-chunk data WITH a footer to the seekable validator and the 32768-chunk data with footer to the
-//!       streaming one.
+//!   (B) objects of 32766..40000 maximum-size chunks whose unpacked total (and, separately, whose stored total) is just below / at /
+//!       above the u32 range of the footer fields, footer-less and footered, through the streaming and the seekable validator.  The
+//!       objects are synthesized by a virtual reader (a few LZ4 chunks + raw chunks of zeros), so nothing of that size is held in
+//!       memory and almost no LZ4 decoding is needed; one all-LZ4 stream at exactly 2^32 unpacked bytes is kept.
 //! Prints `WITNESS ...` and exits 1 on the first violation.
 use std::panic::{catch_unwind, AssertUnwindSafe};
 use std::pin::Pin;
@@ -389,129 +389,215 @@ fn small_streams(seed: u64) {
 }
 
 // ---------------------------------------------------------------------------------------------------------------------------------
-// (B) unpacked totals around 2^32
+// (B) unpacked / stored totals around 2^32.  The objects are VIRTUAL: a reader synthesizes `n_lz` LZ4 chunks of 128 KiB zeros (548
+// stored bytes each) followed by `n_raw` chunks of 128 KiB zeros stored raw (8-byte header + 131072 bytes), then an optional footer.
+// Raw chunks cost the validators a copy and a hash (no LZ4 decoding); just enough LZ4 chunks are used to keep the STORED total
+// inside u32 when the case is about the UNPACKED total, and none when the case is about the stored total.
 // ---------------------------------------------------------------------------------------------------------------------------------
 
-fn big_stream(n: usize) -> Result<String, String> {
-    let chunk = vec![0u8; 128 * 1024];
-    let chunk_hash = compute_data_hash(&chunk);
-    let mut one = Vec::new();
-    serialize_chunk(&chunk, &mut one, Some(CompressionScheme::LZ4)).unwrap();
-    let mut stream = Vec::with_capacity(one.len() * n);
-    for _ in 0..n {
-        stream.extend_from_slice(&one);
+const CHUNK: usize = 128 * 1024;
+const RAW_STORED: usize = CHUNK + 8;
+const RAW_HEADER: [u8; 8] = [0, 0, 0, 2, 0, 0, 0, 2];
+static ZEROS: [u8; CHUNK] = [0u8; CHUNK];
+
+#[derive(Clone)]
+struct Virt {
+    lz: std::sync::Arc<Vec<u8>>,
+    n_lz: usize,
+    n_raw: usize,
+    tail: std::sync::Arc<Vec<u8>>,
+    pos: u64,
+}
+impl Virt {
+    fn total(&self) -> u64 {
+        (self.n_lz * self.lz.len() + self.n_raw * RAW_STORED + self.tail.len()) as u64
     }
-    let list: Vec<(MerkleHash, usize)> = (0..n).map(|_| (chunk_hash, chunk.len())).collect();
-    let hash = merkledb::aggregate_hashes::cas_node_hash(&list);
-    let total: u64 = (n * chunk.len()) as u64;
-    let r = catch_unwind(AssertUnwindSafe(|| block_on(validate_cas_object_from_async_read(&mut &stream[..], &hash))));
-    match r {
-        Err(e) => {
-            let msg = e.downcast_ref::<String>().cloned().or_else(|| e.downcast_ref::<&str>().map(|s| s.to_string())).unwrap_or_default();
-            Err(format!("the streaming validator panicked on a footer-less stream of {n} LZ4 chunks of 128 KiB zeros ({} bytes on the wire): {msg}", stream.len()))
-        },
-        Ok(Err(_)) | Ok(Ok(None)) => {
-            if total <= u32::MAX as u64 {
-                return Err(format!("the streaming validator REJECTS a well-formed footer-less stream of {n} LZ4 chunks of 128 KiB zeros ({} bytes on the wire, {total} unpacked bytes - within the u32 range of the footer)", stream.len()));
-            }
-            Ok(format!("{n} chunks ({total} unpacked bytes): rejected"))
-        },
-        Ok(Ok(Some((cas, gb)))) => {
-            // accepted: the generated footer must describe the chunk data
-            let offs = &cas.info.unpacked_chunk_offsets;
-            let mut want = 0u64;
-            for (i, o) in offs.iter().enumerate() {
-                want += chunk.len() as u64;
-                if *o as u64 != want {
-                    return Err(format!(
-                        "the streaming validator ACCEPTED a footer-less stream of {n} LZ4 chunks of 128 KiB zeros ({} bytes on the wire, {total} unpacked) and returned a footer whose unpacked offset #{i} is {o}, the chunk data ends at {want} (last offsets: {:?})",
-                        stream.len(), &offs[offs.len().saturating_sub(3)..]
-                    ));
+    fn fill(&self, mut pos: u64, buf: &mut [u8]) -> usize {
+        let (a, b, end) = ((self.n_lz * self.lz.len()) as u64, (self.n_lz * self.lz.len() + self.n_raw * RAW_STORED) as u64, self.total());
+        let mut done = 0;
+        while done < buf.len() && pos < end {
+            let room = buf.len() - done;
+            let take;
+            if pos < a {
+                let off = (pos % self.lz.len() as u64) as usize;
+                take = room.min(self.lz.len() - off);
+                buf[done..done + take].copy_from_slice(&self.lz[off..off + take]);
+            } else if pos < b {
+                let r = ((pos - a) % RAW_STORED as u64) as usize;
+                if r < 8 {
+                    take = room.min(8 - r);
+                    buf[done..done + take].copy_from_slice(&RAW_HEADER[r..r + take]);
+                } else {
+                    take = room.min(RAW_STORED - r);
+                    buf[done..done + take].copy_from_slice(&ZEROS[..take]); // (memcpy; a `fill` loop is slow in an unoptimized build)
                 }
+            } else {
+                let off = (pos - b) as usize;
+                take = room.min(self.tail.len() - off);
+                buf[done..done + take].copy_from_slice(&self.tail[off..off + take]);
             }
-            if offs.len() != n {
-                return Err(format!("accepted with {} unpacked offsets for {n} chunks", offs.len()));
-            }
-            let i = &cas.info;
-            if i.num_chunks as usize != n || i.chunk_hashes.len() != n || i.chunk_hashes.iter().any(|h| *h != chunk_hash) || i.cashash != hash
-                || i.chunk_boundary_offsets.len() != n || i.chunk_boundary_offsets.iter().enumerate().any(|(k, b)| *b as usize != (k + 1) * one.len())
-                || gb != Some(0) || cas.info_length != 0
-            {
-                return Err(format!("the streaming validator ACCEPTED a footer-less stream of {n} LZ4 chunks of 128 KiB zeros and returned num_chunks {}, {} hashes, {} boundaries (last {:?}, the stream has {} bytes), go_back_bytes {gb:?}, info_length {}", i.num_chunks, i.chunk_hashes.len(), i.chunk_boundary_offsets.len(), i.chunk_boundary_offsets.last(), stream.len(), cas.info_length));
-            }
-            Ok(format!("{n} chunks ({total} unpacked bytes): accepted, generated footer matches"))
-        },
+            done += take;
+            pos += take as u64;
+        }
+        done
+    }
+}
+impl std::io::Read for Virt {
+    fn read(&mut self, buf: &mut [u8]) -> std::io::Result<usize> {
+        let n = self.fill(self.pos, buf);
+        self.pos += n as u64;
+        Ok(n)
+    }
+}
+impl std::io::Seek for Virt {
+    fn seek(&mut self, to: std::io::SeekFrom) -> std::io::Result<u64> {
+        let p = match to {
+            std::io::SeekFrom::Start(p) => p as i128,
+            std::io::SeekFrom::End(d) => self.total() as i128 + d as i128,
+            std::io::SeekFrom::Current(d) => self.pos as i128 + d as i128,
+        };
+        if p < 0 {
+            return Err(std::io::Error::new(std::io::ErrorKind::InvalidInput, "invalid seek to a negative position"));
+        }
+        self.pos = p as u64;
+        Ok(self.pos)
+    }
+}
+impl futures::io::AsyncRead for Virt {
+    fn poll_read(mut self: Pin<&mut Self>, _cx: &mut Context<'_>, buf: &mut [u8]) -> Poll<std::io::Result<usize>> {
+        let n = self.fill(self.pos, buf);
+        self.pos += n as u64;
+        Poll::Ready(Ok(n))
     }
 }
 
-/// the same chunk data WITH a footer (own layout, unpacked offsets as far as they fit into u32, wrapped beyond) through the seekable
-/// validator: within the u32 range it must accept and return the footer as written; beyond, no footer can describe the data
-fn big_seek(n: usize, streaming: bool) -> Result<String, String> {
-    let chunk = vec![0u8; 128 * 1024];
+/// the smallest number of LZ4 chunks that keeps the stored total of `n` chunks at least `margin` bytes below u32::MAX (4 MB: the
+/// whole FILE, footer included, then stays below 2^32; see the opt-in probe C08_PROBE_FILE_OVER_4G for the other situation)
+fn lz_needed(n: usize, lz_len: usize, margin: i64) -> usize {
+    let all_raw = (n * RAW_STORED) as i64;
+    let room = u32::MAX as i64 - margin;
+    if all_raw <= room { 8.min(n) } else { (((all_raw - room) + (RAW_STORED - lz_len) as i64 - 1) / (RAW_STORED - lz_len) as i64) as usize }
+}
+
+#[derive(Clone, Copy, PartialEq)]
+enum Which { Stream, Seek }
+
+/// One virtual object of `n` chunks of 128 KiB zeros, the first `n_lz` of them LZ4, with or without an own-layout V1 footer
+/// (offsets that do not fit into u32 are written wrapped), through one validator.  It must be accepted - with the footer matching
+/// the chunk data - exactly when both the unpacked and the stored total fit into the u32 fields of the footer.
+fn big_case(n: usize, n_lz: usize, footered: bool, which: Which) -> Result<String, String> {
+    let chunk = vec![0u8; CHUNK];
     let chunk_hash = compute_data_hash(&chunk);
     let mut one = Vec::new();
     serialize_chunk(&chunk, &mut one, Some(CompressionScheme::LZ4)).unwrap();
-    let mut file = Vec::with_capacity(one.len() * n + 40 * n + 200);
-    for _ in 0..n {
-        file.extend_from_slice(&one);
-    }
-    let list: Vec<(MerkleHash, usize)> = (0..n).map(|_| (chunk_hash, chunk.len())).collect();
+    let n_raw = n - n_lz;
+    let list: Vec<(MerkleHash, usize)> = (0..n).map(|_| (chunk_hash, CHUNK)).collect();
     let hash = merkledb::aggregate_hashes::cas_node_hash(&list);
     let hashes = vec![chunk_hash; n];
-    let bounds: Vec<u32> = (1..=n).map(|k| (k * one.len()) as u32).collect();
-    let unpacked: Vec<u32> = (1..=n as u64).map(|k| (k * chunk.len() as u64) as u32).collect();
-    let total: u64 = (n * chunk.len()) as u64;
+    let bounds64: Vec<u64> = (1..=n).map(|k| if k <= n_lz { (k * one.len()) as u64 } else { (n_lz * one.len() + (k - n_lz) * RAW_STORED) as u64 }).collect();
+    let bounds: Vec<u32> = bounds64.iter().map(|b| *b as u32).collect();
+    let unpacked: Vec<u32> = (1..=n as u64).map(|k| (k * CHUNK as u64) as u32).collect();
+    let (total_unpacked, total_stored) = ((n * CHUNK) as u64, *bounds64.last().unwrap());
+    let fits = total_unpacked <= u32::MAX as u64 && total_stored <= u32::MAX as u64;
     let footer = v1_footer(&hash, &hashes, &bounds, &unpacked, n as u32);
-    file.extend_from_slice(&footer);
-    file.extend_from_slice(&(footer.len() as u32).to_le_bytes());
-    let r = catch_unwind(AssertUnwindSafe(|| {
-        if streaming {
-            block_on(validate_cas_object_from_async_read(&mut &file[..], &hash)).map(|o| o.map(|(cas, gb)| { assert_eq!(gb, None, "go_back_bytes of a footered xorb"); cas }))
-        } else {
-            CasObject::validate_cas_object(&mut std::io::Cursor::new(&file[..]), &hash)
-        }
+    let tail = if footered { let mut t = footer.clone(); t.extend_from_slice(&(footer.len() as u32).to_le_bytes()); t } else { vec![] };
+    let mut v = Virt { lz: std::sync::Arc::new(one.clone()), n_lz, n_raw, tail: std::sync::Arc::new(tail), pos: 0 };
+    let validator = if which == Which::Stream { "streaming" } else { "seekable" };
+    let what = format!(
+        "a{} xorb of {n} chunks of 128 KiB zeros ({n_lz} stored as LZ4 in {} bytes each, {n_raw} stored raw; {total_stored} stored bytes, {total_unpacked} unpacked bytes){}",
+        if footered { " footered" } else { " footer-less" }, one.len(),
+        if footered && !fits { ", footer offsets wrapped modulo 2^32" } else { "" }
+    );
+    let r = catch_unwind(AssertUnwindSafe(|| match which {
+        Which::Stream => block_on(validate_cas_object_from_async_read(&mut v, &hash)).map(|o| o.map(|(cas, gb)| (cas, gb))),
+        Which::Seek => CasObject::validate_cas_object(&mut v, &hash).map(|o| o.map(|cas| (cas, None))),
     }));
-    let validator = if streaming { "streaming" } else { "seekable" };
-    let what = format!("a xorb of {n} LZ4 chunks of 128 KiB zeros with a V1 footer ({} bytes, {total} unpacked{})", file.len(), if total > u32::MAX as u64 { ", unpacked offsets wrapped modulo 2^32" } else { "" });
+    let label = format!("{n} chunks ({n_lz} LZ4 + {n_raw} raw, {total_unpacked} unpacked / {total_stored} stored bytes){}, {validator} validator", if footered { " with footer" } else { "" });
     match r {
         Err(e) => {
             let msg = e.downcast_ref::<String>().cloned().or_else(|| e.downcast_ref::<&str>().map(|s| s.to_string())).unwrap_or_default();
             Err(format!("the {validator} validator panicked on {what}: {msg}"))
         },
-        Ok(Ok(Some(cas))) => {
-            if total > u32::MAX as u64 {
-                return Err(format!("the {validator} validator ACCEPTS {what}: its unpacked offsets cannot describe the chunk data (last offsets {:?})", &cas.info.unpacked_chunk_offsets[n - 3..]));
+        Ok(Err(_)) | Ok(Ok(None)) => {
+            if fits {
+                return Err(format!("the {validator} validator REJECTS {what}: well-formed and within the u32 range of the footer"));
             }
-            let i = &cas.info;
-            if i.cashash != hash || i.num_chunks as usize != n || i.chunk_hashes != hashes || i.chunk_boundary_offsets != bounds || i.unpacked_chunk_offsets != unpacked || cas.info_length as usize != footer.len() {
-                return Err(format!("the {validator} validator ACCEPTS {what} but returns another footer than the one in the file (num_chunks {}, info_length {})", i.num_chunks, cas.info_length));
-            }
-            Ok(format!("{n} chunks with footer, {validator} validator: accepted, footer as written"))
+            Ok(format!("{label}: rejected"))
         },
-        Ok(Ok(None)) | Ok(Err(_)) => {
-            if total <= u32::MAX as u64 {
-                return Err(format!("the {validator} validator REJECTS {what}, a well-formed xorb within the u32 range of the footer"));
+        Ok(Ok(Some((cas, gb)))) => {
+            let i = &cas.info;
+            if !fits {
+                return Err(format!("the {validator} validator ACCEPTS {what}: no footer can describe the chunk data (returned last unpacked offsets {:?}, last boundary offsets {:?}; the data ends at {total_unpacked} / {total_stored})", &i.unpacked_chunk_offsets[i.unpacked_chunk_offsets.len().saturating_sub(3)..], &i.chunk_boundary_offsets[i.chunk_boundary_offsets.len().saturating_sub(3)..]));
             }
-            Ok(format!("{n} chunks with footer, {validator} validator: rejected"))
+            if let Some(k) = (0..n.min(i.unpacked_chunk_offsets.len())).find(|k| i.unpacked_chunk_offsets[*k] != unpacked[*k]) {
+                return Err(format!("the {validator} validator ACCEPTS {what} and returns a footer whose unpacked offset #{k} is {}, the chunk data ends at {}", i.unpacked_chunk_offsets[k], unpacked[k]));
+            }
+            let want_il = if footered { footer.len() as u32 } else { 0 };
+            let want_gb = if footered || which == Which::Seek { None } else { Some(0) };
+            if i.cashash != hash || i.num_chunks as usize != n || i.chunk_hashes != hashes || i.chunk_boundary_offsets != bounds || i.unpacked_chunk_offsets != unpacked || cas.info_length != want_il || gb != want_gb {
+                return Err(format!("the {validator} validator ACCEPTS {what} and returns num_chunks {}, {} hashes, {} boundaries (last {:?}), {} unpacked offsets, go_back_bytes {gb:?}, info_length {}: not the footer the chunk data dictates", i.num_chunks, i.chunk_hashes.len(), i.chunk_boundary_offsets.len(), i.chunk_boundary_offsets.last(), i.unpacked_chunk_offsets.len(), cas.info_length));
+            }
+            Ok(format!("{label}: accepted, footer matches"))
         },
     }
 }
 
 fn main() {
     let seed: u64 = std::env::var("VERIF_SEED").ok().and_then(|s| s.parse().ok()).unwrap_or(0);
-    let sizes = [32767usize, 32768, 32769, 40000];
-    // the four big streams are independent: run them beside the small-stream classes
-    let mut handles: Vec<_> = sizes.iter().map(|n| { let n = *n; std::thread::spawn(move || big_stream(n)) }).collect();
-    let sizes: Vec<usize> = sizes.iter().copied().chain([32767usize, 32768, 32768]).collect();
-    handles.extend([(32767usize, false), (32768, false), (32768, true)].map(|(n, streaming)| std::thread::spawn(move || big_seek(n, streaming))));
+    let lz_len = { let mut one = Vec::new(); serialize_chunk(&vec![0u8; CHUNK], &mut one, Some(CompressionScheme::LZ4)).unwrap(); one.len() };
+    // the virtual reader against a real buffer (harness self-check)
+    {
+        let v = Virt { lz: std::sync::Arc::new((0..lz_len).map(|i| i as u8).collect()), n_lz: 2, n_raw: 2, tail: std::sync::Arc::new(vec![9; 13]), pos: 0 };
+        let mut real: Vec<u8> = vec![];
+        for _ in 0..2 { real.extend_from_slice(&v.lz); }
+        for _ in 0..2 { real.extend_from_slice(&RAW_HEADER); real.extend(std::iter::repeat(0u8).take(CHUNK)); }
+        real.extend_from_slice(&v.tail);
+        let mut got = vec![0xEEu8; real.len() + 5];
+        let mut p = 0usize;
+        for step in [1usize, 7, 500, 8, 131_000, 100, 131_072, 9_999_999] {
+            let e = (p + step).min(got.len());
+            p += v.fill(p as u64, &mut got[p..e]);
+        }
+        if p != real.len() || got[..p] != real[..] || v.total() != real.len() as u64 {
+            println!("infrastructure: the virtual reader does not reproduce its layout");
+            std::process::exit(2);
+        }
+    }
+    use Which::*;
+    // (n, LZ4 chunks, footered, validator)
+    let mut cases: Vec<(usize, usize, bool, Which)> = vec![];
+    // unpacked total just below / at / above 2^32, stored total kept inside u32
+    for n in [32767usize, 32768, 32769, 40000] {
+        cases.push((n, lz_needed(n, lz_len, 4_000_000), false, Stream));
+    }
+    for n in [32767usize, 32768] {
+        cases.push((n, lz_needed(n, lz_len, 4_000_000), true, Seek));
+        cases.push((n, lz_needed(n, lz_len, 4_000_000), true, Stream));
+    }
+    // all chunks LZ4 (the stored form of the earlier version of this program), sampled at the boundary only
+    cases.push((32768, 32768, false, Stream));
+    // stored total just below / above u32::MAX while the unpacked total stays below 2^32: all chunks raw
+    // (32766 * 131080 = 4294967280 = u32::MAX - 15)
+    for n in [32766usize, 32767] {
+        cases.push((n, 0, false, Stream));
+        cases.push((n, 0, true, Stream));
+        if n == 32766 || std::env::var("C08_PROBE_STORED_OVERFLOW_SEEK").is_ok() {
+            cases.push((n, 0, true, Seek));
+        }
+    }
+    // opt-in probe: chunk section of 4293923572 bytes (inside u32) but chunk section + footer beyond 2^32
+    if std::env::var("C08_PROBE_FILE_OVER_4G").is_ok() {
+        cases.push((32767, lz_needed(32767, lz_len, 1_000_000), true, Seek));
+    }
+    let handles: Vec<_> = cases.iter().map(|c| { let c = *c; std::thread::spawn(move || big_case(c.0, c.1, c.2, c.3)) }).collect();
     std::panic::set_hook(Box::new(|_| {}));
     small_streams(seed);
-    for (h, n) in handles.into_iter().zip(sizes) {
+    for (h, c) in handles.into_iter().zip(&cases) {
         match h.join() {
             Ok(Ok(line)) => println!("{line}"),
             Ok(Err(w)) => witness(w),
             Err(_) => {
-                println!("infrastructure: the thread for the stream of {n} chunks died");
+                println!("infrastructure: the thread for the object of {} chunks died", c.0);
                 std::process::exit(2);
             },
         }
